@@ -257,6 +257,23 @@ def slice_get_unchecked(eng, st, site, func, target, args, dty):
     return index_common(eng, st, site, func, args, dty, False, "index", unsafe=True)
 
 
+@stub(r"^core::slice::<impl \[T\]>::split_at(_mut)?$|^core::str::<impl str>::split_at$")
+def slice_split_at(eng, st, site, func, target, args, dty):
+    frame, bb, t = site
+    s = as_slice(eng, st, args[0])
+    mid = args[1]
+    if s is None or not isinstance(mid, VInt):
+        return None
+    c = c_le(mid.lin, s.len)
+    ok = eng.ent(st, c)
+    eng.oblig("bounds", frame, bb, eng.callee_label(func), ok, st, None if ok else "split point %r not proven <= length %r" % (mid.lin, s.len), t.get("ln"))
+    if not ok and not eng.add(st, c):
+        return []
+    a_ = VSlice(s.base, s.start, mid.lin, s.elem, s.is_str, s.mut)
+    b_ = VSlice(s.base, s.start + mid.lin, s.len - mid.lin, s.elem, s.is_str, s.mut)
+    return [(st, VAdt(dty, Lin.const(0), {0: (a_, b_)}))]
+
+
 @stub(r"^core::slice::<impl \[T\]>::first$")
 def slice_first(eng, st, site, func, target, args, dty):
     s = as_slice(eng, st, args[0])
@@ -980,8 +997,12 @@ def iter_all_any(eng, st, site, func, target, args, dty):
     eng.call_closure(probe, site, clo, [elem])
     src = it.src.base if isinstance(it, VIter) and isinstance(it.src, VSlice) else None
     k = classify_pred(eng, st, site, clo, ety, True) if src is not None else None
+    nv = eng.n_variants(ety) if ety is not None else None
     if k is not None and not is_all:
         sym = ("sym", "any:v%d:%r" % (k, src))
+    elif k is not None and is_all and nv == 2:
+        # all elements are variant k  <=>  no element is variant 1-k
+        sym = ("not", ("sym", "any:v%d:%r" % (1 - k, src)))
     else:
         sym = ("sym", "%s(%r)#%s" % ("all" if is_all else "any", src, eng.fresh("p")))
     st.emit(("hof", "all" if is_all else "any", src, clo.key if isinstance(clo, VClosure) else None, site_info(site)))
@@ -1032,6 +1053,26 @@ def iter_collect(eng, st, site, func, target, args, dty):
     st.emit(("collect", it.kind if isinstance(it, VIter) else None, src_cell,
              it.extra.key if isinstance(it, VIter) and isinstance(it.extra, VClosure) else None, site_info(site)))
     return [(st, new_vec(eng, st, ln.lin, None, None))]
+
+
+@stub(r"<impl std::convert::TryFrom<([ui](8|16|32|64|128|size))> for ([ui](8|16|32|64|128|size))>::try_from$")
+def int_try_from(eng, st, site, func, target, args, dty):
+    import re as _re
+    m = _re.search(r"TryFrom<([ui]\w+)> for ([ui]\w+)>::try_from$", target["name"])
+    dst = eng.find_type(lambda t: t["k"] == "int" and t["n"] == m.group(2))
+    v = args[0]
+    if dst is None or not isinstance(v, VInt):
+        return None
+    lo, hi = eng.int_range(dst)
+    out = []
+    s_ok = st.fork()
+    if eng.add(s_ok, c_le(Lin.const(lo), v.lin)) and eng.add(s_ok, c_le(v.lin, Lin.const(hi))):
+        out.append((s_ok, mk_result(eng, dty, True, VInt(dst, v.lin, v.mask, None, v.taint))))
+    for c in (c_lt(v.lin, Lin.const(lo)), c_lt(Lin.const(hi), v.lin)):
+        s3 = st.fork()
+        if eng.add(s3, c):
+            out.append((s3, mk_result(eng, dty, False, VUnknown(None, eng.fresh("tryfromint")))))
+    return out
 
 
 # ------------------------------------------------------------------ checked / saturating arithmetic, min / max
